@@ -1,105 +1,659 @@
 import Spine.Heap
+import Spine.C04Thm
+/-!
+# Lemmas about the store / sharing model (C11, C04c)
+
+* `Ext h h'`: `h'` extends `h` without disturbing anything that existed in `h` except the struct the store
+  points to: every old backing array reads the same, every old struct other than the stored one is the same,
+  and the store pointer is the old one or a brand-new struct. `Ext` is a preorder, so it lifts to histories.
+* `updateData_safe_ext`: a `DataCopy`, a replace (fast path) and a merge-path update — an update without
+  filter data whose items carry identifiers, persisting or not, local or remote, every member of the family —
+  are `Ext` steps.
+* `readStruct_ext`: across an `Ext` step a retained struct other than the stored one reads the same.
+* `updateData_merge_noop`: a merge-path update that does not persist, or fails, leaves the stored data as it was.
+* `WF` (slices point into existing arrays, the store to an existing struct) is preserved by every operation.
+-/
 namespace Spine.Heap
 open Spine
 
-def lcShape : Shape :=
-  { n := 5, keys := [(0, .uint)], flag := some 1, selMap := [some 0], elN := 5, elMap := [some 0, some 1, some 2, some 3, some 4] }
+/-! ### the merge path of the engine -/
 
-/-- C11 refuted: a snapshot taken with DataCopy changes when a later selector update is applied -/
-theorem snapshot_changes_witness :
-    let h0 : H := {}
-    let (h1, _) := full h0 [[some 1, some 1, some 0, none, none]]
-    let (h2, snap) := dataCopy h1
-    let before := h2.readStruct (snap.getD 0)
-    let (h3, _) := update lcShape h2 false true [[none, none, some 1, none, none]]
-                     (some { sel := some [some 1], el := none }) none
-    h3.readStruct (snap.getD 0) ≠ before := by decide
+/-- the items of an update carry identifiers (or there are none): `UpdateList` takes the `Merge` branch -/
+def MergeNw (sh : Shape) (nw : List Item) : Prop := ∀ n0 rest, nw = n0 :: rest → hasIdentifiers sh n0 = true
 
-/-- C11 refuted: an update requested without persistence modifies the stored data -/
-theorem nonpersist_modifies_witness :
-    let h0 : H := {}
-    let (h1, s) := full h0 [[some 1, some 1, some 0, none, none]]
-    let (h2, _) := update lcShape h1 false false [[none, none, some 1, none, none]] none none
-    h2.readStruct s ≠ h1.readStruct s := by decide
+instance (sh : Shape) (nw : List Item) : Decidable (MergeNw sh nw) :=
+  match nw with
+  | [] => isTrue (by intro n0 rest h; cases h)
+  | n0 :: rest =>
+    if h : hasIdentifiers sh n0 = true then isTrue (by intro a b hab; cases hab; exact h)
+    else isFalse (fun hm => h (hm n0 rest rfl))
 
-/-- on the merge path the engine does not write into the caller's array -/
-theorem updateList_merge_inplace (sh : Shape) (remote : Bool) (ex nw : List Item) (r : Res)
-    (hnw : ∀ n0 rest, nw = n0 :: rest → hasIdentifiers sh n0 = true)
-    (h : updateList sh remote ex nw none none = .ok r) : r.inplace = ex := by
-  unfold updateList at h
-  simp only at h
+/-- on the merge path the engine returns a fresh sorted merge and does not write into the caller's array -/
+theorem updateListF_merge (c : UCfg) (sh : Shape) (remote : Bool) (ex nw : List Item) (hnw : MergeNw sh nw) :
+    updateListF c sh remote ex nw none none =
+      .ok ⟨ex, sortData sh (mergeF c sh remote ex nw).1, (mergeF c sh remote ex nw).2, true⟩ := by
+  unfold updateListF deletePhaseF partialPhaseF tailF
   cases nw with
-  | nil => simp only at h; injection h with h; rw [← h]
-  | cons n0 rest =>
-    have := hnw n0 rest rfl
-    simp only [this, Bool.not_true, Bool.false_eq_true, if_false] at h
-    injection h with h; rw [← h]
+  | nil => simp
+  | cons n0 rest => simp [hnw n0 rest rfl]
 
-theorem set_take_drop {α} (l : List (List α)) (a n : Nat) (ha : a < l.length) :
-    l.set a ((l[a]?.getD []).take n ++ (l[a]?.getD []).drop n) = l := by
-  rw [List.take_append_drop]
-  simp [List.getElem?_eq_getElem ha]
+/-! ### heap basics -/
 
-/-- C11 (partial): an identifier-based partial update or a non-persisting full update without filters — the
-    merge path — leaves every backing array that existed before exactly as it was; hence every snapshot taken
-    earlier still reads the same -/
-theorem update_merge_arrays (sh : Shape) (h : H) (remote persist : Bool) (nw : List Item)
-    (hnw : ∀ n0 rest, nw = n0 :: rest → hasIdentifiers sh n0 = true)
-    (hwf : ∀ s a n, h.store = some s → (h.structs[s]?).join = some (a, n) → a < h.arrays.length)
-    (a : Nat) (ha : a < h.arrays.length) :
-    (update sh h remote persist nw none none).1.arrays[a]? = h.arrays[a]? := by
-  unfold update
+theorem writeBack_self (h : H) (cur : Slice) : h.writeBack cur (h.slice cur) = h := by
+  cases cur with
+  | none => rfl
+  | some an =>
+    obtain ⟨a, n⟩ := an
+    simp only [H.writeBack, H.slice, List.take_append_drop]
+    by_cases ha : a < h.arrays.length
+    · simp [List.getElem?_eq_getElem ha]
+    · have : h.arrays.length ≤ a := Nat.le_of_not_lt ha
+      simp [List.set_eq_of_length_le this]
+
+/-- `h'` extends `h` leaving alone everything that existed except the stored struct -/
+structure Ext (h h' : H) : Prop where
+  arr : ∀ a, a < h.arrays.length → h'.arrays[a]? = h.arrays[a]?
+  alen : h.arrays.length ≤ h'.arrays.length
+  slen : h.structs.length ≤ h'.structs.length
+  str : ∀ s, s < h.structs.length → h.store ≠ some s → h'.structs[s]? = h.structs[s]?
+  store : ∀ s, h'.store = some s → h.store = some s ∨ h.structs.length ≤ s
+
+theorem Ext.refl (h : H) : Ext h h :=
+  ⟨fun _ _ => rfl, Nat.le_refl _, Nat.le_refl _, fun _ _ _ => rfl, fun _ hs => Or.inl hs⟩
+
+theorem Ext.trans {h1 h2 h3 : H} (a : Ext h1 h2) (b : Ext h2 h3) : Ext h1 h3 where
+  arr := fun x hx => by rw [b.arr x (Nat.lt_of_lt_of_le hx a.alen), a.arr x hx]
+  alen := Nat.le_trans a.alen b.alen
+  slen := Nat.le_trans a.slen b.slen
+  str := fun s hs hne => by
+    have h2ne : h2.store ≠ some s := by
+      intro h2s
+      rcases a.store s h2s with h | h
+      · exact hne h
+      · exact absurd hs (Nat.not_lt.mpr h)
+    rw [b.str s (Nat.lt_of_lt_of_le hs a.slen) h2ne, a.str s hs hne]
+  store := fun s hs => by
+    rcases b.store s hs with h | h
+    · rcases a.store s h with h' | h'
+      · exact Or.inl h'
+      · exact Or.inr h'
+    · exact Or.inr (Nat.le_trans a.slen h)
+
+theorem allocList_structs (h : H) (l : List Item) : (h.allocList l).1.structs = h.structs := by
+  unfold H.allocList; split <;> rfl
+
+theorem allocList_store (h : H) (l : List Item) : (h.allocList l).1.store = h.store := by
+  unfold H.allocList; split <;> rfl
+
+theorem ext_allocList (h : H) (l : List Item) : Ext h (h.allocList l).1 := by
+  unfold H.allocList
+  split
+  · exact Ext.refl h
+  · exact ⟨fun a ha => by simp [List.getElem?_append_left ha], by simp, Nat.le_refl _, fun _ _ _ => rfl, fun _ hs => Or.inl hs⟩
+
+theorem ext_allocStruct (h : H) (v : Slice) : Ext h (h.allocStruct v).1 :=
+  ⟨fun _ _ => rfl, Nat.le_refl _, by simp [H.allocStruct],
+   fun s hs _ => by simp [H.allocStruct, List.getElem?_append_left hs], fun _ hs => Or.inl hs⟩
+
+theorem ext_allocValue (h : H) (l : List Item) : Ext h (h.allocValue l).1 :=
+  (ext_allocList h l).trans (ext_allocStruct _ _)
+
+theorem allocValue_snd (h : H) (l : List Item) : (h.allocValue l).2 = h.structs.length := by
+  simp [H.allocValue, H.allocStruct, allocList_structs]
+
+theorem allocValue_store (h : H) (l : List Item) : (h.allocValue l).1.store = h.store := by
+  simp [H.allocValue, H.allocStruct, allocList_store]
+
+theorem allocValue_slen (h : H) (l : List Item) : (h.allocValue l).1.structs.length = h.structs.length + 1 := by
+  simp [H.allocValue, H.allocStruct, allocList_structs]
+
+/-- pointing the store at a struct that did not exist in `h` -/
+theorem ext_setStore {h h' : H} (e : Ext h h') (s : Nat) (hs : h.structs.length ≤ s) : Ext h { h' with store := some s } :=
+  ⟨e.arr, e.alen, e.slen, e.str, fun s' hs' => by
+    simp only [Option.some.injEq] at hs'; subst hs'; exact Or.inr hs⟩
+
+theorem ext_ensureStore (h : H) : Ext h h.ensureStore.1 := by
+  unfold H.ensureStore
   cases hst : h.store with
+  | some s => exact Ext.refl h
+  | none => exact ext_setStore (ext_allocStruct h none) _ (Nat.le_refl _)
+
+theorem ensureStore_store (h : H) : h.ensureStore.1.store = some h.ensureStore.2 := by
+  unfold H.ensureStore
+  cases hst : h.store with
+  | some s => simp [hst]
+  | none => rfl
+
+/-- re-assigning the list field of the stored struct -/
+theorem ext_setStoreField (h : H) (s : Nat) (v : Slice) (hs : h.store = some s) :
+    Ext h { h with structs := h.structs.set s v } :=
+  ⟨fun _ _ => rfl, Nat.le_refl _, by simp, fun s' _ hne => by
+    have : s ≠ s' := fun e => hne (e ▸ hs)
+    simp [List.getElem?_set_ne this], fun _ hs' => Or.inl hs'⟩
+
+theorem ext_dataCopy (h : H) : Ext h (dataCopy h).1 := by
+  unfold dataCopy
+  cases h.store with
+  | none => exact Ext.refl h
+  | some s => exact ext_allocStruct h _
+
+/-! ### the engine on the merge path, and the replace path -/
+
+/-- an engine result that did not write in place (`inplace` is what was read) is an extension step -/
+theorem applyRes_ext (h1 : H) (s : Nat) (persist : Bool) (inp : Nat) (r : Res) (hst : h1.store = some s)
+    (hin : r.inplace = h1.slice (h1.field s)) : Ext h1 (applyRes h1 s persist inp r).1 := by
+  unfold applyRes
+  simp only [hin, writeBack_self]
+  have e3 : Ext h1 (if r.fresh = true then (h1.allocList r.out).1 else h1) := by
+    split
+    · exact ext_allocList h1 r.out
+    · exact Ext.refl h1
+  have hs3 : (if r.fresh = true then (h1.allocList r.out).1 else h1).store = some s := by
+    split
+    · rw [allocList_store]; exact hst
+    · exact hst
+  generalize (if r.fresh = true then (h1.allocList r.out).1 else h1) = h3 at e3 hs3
+  generalize (if r.fresh = true then (h1.allocList r.out).2 else h1.field s) = v
+  have e4 : Ext h3 (if (r.fresh && r.ok && persist) = true then { h3 with structs := h3.structs.set s v } else h3) := by
+    split
+    · exact ext_setStoreField h3 s v hs3
+    · exact Ext.refl _
+  generalize (if (r.fresh && r.ok && persist) = true then { h3 with structs := h3.structs.set s v } else h3) = h4 at e4
+  split
+  · exact (e3.trans e4).trans (ext_allocStruct _ _)
+  · exact e3.trans e4
+
+theorem engine_merge_ext (c : Cfg) (sh : Shape) (h : H) (remote persist : Bool) (nw : List Item) (inp : Nat)
+    (hnw : MergeNw sh nw) : Ext h (engine c sh h remote persist nw none none inp).1 := by
+  unfold engine
+  simp only [updateListF_merge c.u sh remote _ nw hnw]
+  exact (ext_ensureStore h).trans (applyRes_ext _ _ persist inp _ (ensureStore_store h) rfl)
+
+/-- an update that is safe for retained values: the replace fast path, or the merge path -/
+def SafeUpd (c : Cfg) (sh : Shape) (h : H) (remote persist : Bool) (nw : List Item) (fp fd : FArg) : Prop :=
+  fastPath c (h.allocValue nw).1 remote persist fp fd = true ∨ (fp.toOpt = none ∧ fd.toOpt = none ∧ MergeNw sh nw)
+
+theorem updateData_safe_ext (c : Cfg) (sh : Shape) (h : H) (remote persist : Bool) (nw : List Item) (fp fd : FArg)
+    (hs : SafeUpd c sh h remote persist nw fp fd) : Ext h (updateData c sh h remote persist nw fp fd).1 := by
+  unfold updateData
+  have h1 := ext_allocValue h nw
+  by_cases hf : fastPath c (h.allocValue nw).1 remote persist fp fd = true
+  · simp only [hf, if_true]
+    exact ext_setStore h1 _ (by rw [allocValue_snd]; exact Nat.le_refl _)
+  · simp only [hf, Bool.false_eq_true, if_false]
+    rcases hs with hs | ⟨hp, hd, hm⟩
+    · exact absurd hs hf
+    · rw [hp, hd]
+      exact h1.trans (engine_merge_ext c sh _ remote persist nw _ hm)
+
+/-! ### reading across an extension -/
+
+/-- every slice held by a struct points into an existing array, and the store points to an existing struct -/
+def H.WF (h : H) : Prop :=
+  (∀ s a n, h.field s = some (a, n) → a < h.arrays.length) ∧ (∀ s, h.store = some s → s < h.structs.length)
+
+theorem slice_ext {h h' : H} (e : Ext h h') (v : Slice) (hv : ∀ a n, v = some (a, n) → a < h.arrays.length) :
+    h'.slice v = h.slice v := by
+  cases v with
+  | none => rfl
+  | some an => obtain ⟨a, n⟩ := an; simp only [H.slice, e.arr a (hv a n rfl)]
+
+theorem readStruct_ext {h h' : H} (e : Ext h h') (hw : h.WF) (s : Nat) (hs : s < h.structs.length)
+    (hne : h.store ≠ some s) : h'.readStruct s = h.readStruct s := by
+  unfold H.readStruct
+  have hf : h'.field s = h.field s := by unfold H.field; rw [e.str s hs hne]
+  rw [hf]
+  exact slice_ext e _ (fun a n hv => hw.1 s a n hv)
+
+/-! ### well-formedness is preserved by every operation -/
+
+def ValidSlice (h : H) (v : Slice) : Prop := ∀ a n, v = some (a, n) → a < h.arrays.length
+
+theorem wf_empty : ({} : H).WF := ⟨fun s a n h => by simp [H.field] at h, fun s h => by cases h⟩
+
+theorem validSlice_field {h : H} (hw : h.WF) (s : Nat) : ValidSlice h (h.field s) := fun a n hv => hw.1 s a n hv
+
+theorem validSlice_mono {h h' : H} (hl : h.arrays.length ≤ h'.arrays.length) {v : Slice} (hv : ValidSlice h v) :
+    ValidSlice h' v := fun a n e => Nat.lt_of_lt_of_le (hv a n e) hl
+
+theorem field_append (h : H) (v : Slice) (s : Nat) :
+    (h.allocStruct v).1.field s = if s = h.structs.length then v else h.field s := by
+  simp only [H.field, H.allocStruct]
+  by_cases hs : s < h.structs.length
+  · simp [List.getElem?_append_left hs, Nat.ne_of_lt hs]
+  · by_cases he : s = h.structs.length
+    · simp [he]
+    · have : h.structs.length < s := by omega
+      have h1 : (h.structs ++ [v])[s]? = none := by
+        apply List.getElem?_eq_none; simp; omega
+      have h2 : h.structs[s]? = none := List.getElem?_eq_none (by omega)
+      simp [h1, h2, he]
+
+theorem wf_allocStruct {h : H} (hw : h.WF) {v : Slice} (hv : ValidSlice h v) : (h.allocStruct v).1.WF := by
+  refine ⟨fun s a n hf => ?_, fun s hs => ?_⟩
+  · rw [field_append] at hf
+    split at hf
+    · exact hv a n hf
+    · exact hw.1 s a n hf
+  · have := hw.2 s hs
+    simp [H.allocStruct]; omega
+
+theorem wf_allocList {h : H} (hw : h.WF) (l : List Item) :
+    (h.allocList l).1.WF ∧ ValidSlice (h.allocList l).1 (h.allocList l).2 := by
+  unfold H.allocList
+  split
+  · exact ⟨hw, fun a n e => by cases e⟩
+  · refine ⟨⟨fun s a n hf => ?_, hw.2⟩, fun a n e => ?_⟩
+    · have := hw.1 s a n hf
+      simp; omega
+    · simp only [Option.some.injEq, Prod.mk.injEq] at e
+      simp; omega
+
+theorem wf_writeBack {h : H} (hw : h.WF) (cur : Slice) (ip : List Item) : (h.writeBack cur ip).WF := by
+  cases cur with
+  | none => exact hw
+  | some an =>
+    obtain ⟨a, n⟩ := an
+    exact ⟨fun s a' n' hf => by have := hw.1 s a' n' hf; simpa [H.writeBack] using this, hw.2⟩
+
+theorem writeBack_alen (h : H) (cur : Slice) (ip : List Item) : (h.writeBack cur ip).arrays.length = h.arrays.length := by
+  cases cur with
+  | none => rfl
+  | some an => obtain ⟨a, n⟩ := an; simp [H.writeBack]
+
+theorem writeBack_field (h : H) (cur : Slice) (ip : List Item) (s : Nat) : (h.writeBack cur ip).field s = h.field s := by
+  cases cur with
+  | none => rfl
+  | some an => obtain ⟨a, n⟩ := an; rfl
+
+theorem wf_setField {h : H} (hw : h.WF) (s : Nat) {v : Slice} (hv : ValidSlice h v) :
+    ({ h with structs := h.structs.set s v } : H).WF := by
+  refine ⟨fun s' a n hf => ?_, fun s' hs => by have := hw.2 s' hs; simpa using this⟩
+  simp only [H.field] at hf
+  by_cases he : s = s'
+  · subst he
+    by_cases hl : s < h.structs.length
+    · simp [List.getElem?_set_self hl] at hf
+      exact hv a n (by rw [hf])
+    · have : (h.structs.set s v)[s]? = none := List.getElem?_eq_none (by simp; omega)
+      simp [this] at hf
+  · rw [List.getElem?_set_ne he] at hf
+    exact hw.1 s' a n hf
+
+theorem wf_setStore {h : H} (hw : h.WF) (s : Nat) (hs : s < h.structs.length) : ({ h with store := some s } : H).WF :=
+  ⟨hw.1, fun s' e => by simp only [Option.some.injEq] at e; subst e; exact hs⟩
+
+theorem wf_allocValue {h : H} (hw : h.WF) (l : List Item) : (h.allocValue l).1.WF :=
+  wf_allocStruct (wf_allocList hw l).1 (wf_allocList hw l).2
+
+theorem wf_full {h : H} (hw : h.WF) (l : List Item) : (full h l).1.WF :=
+  wf_setStore (wf_allocValue hw l) _ (by rw [allocValue_snd, allocValue_slen]; exact Nat.lt_succ_self _)
+
+theorem wf_dataCopy {h : H} (hw : h.WF) : (dataCopy h).1.WF := by
+  unfold dataCopy
+  cases h.store with
+  | none => exact hw
+  | some s => exact wf_allocStruct hw (validSlice_field hw s)
+
+theorem wf_ensureStore {h : H} (hw : h.WF) : h.ensureStore.1.WF := by
+  unfold H.ensureStore
+  cases hst : h.store with
+  | some s => exact hw
   | none =>
-    -- a fresh, empty struct: nothing exists to be written into
-    simp only [H.newStruct]
-    have hjoin : ((h.structs ++ [none])[h.structs.length]?).join = (none : Option (Nat × Nat)) := by simp
-    simp only [hjoin, H.slice]
-    cases hu : updateList sh remote [] nw none none with
-    | panic s => rfl
-    | ok r =>
-      simp only
-      split
-      · split
-        · split
-          · rfl
-          · simp only [H.newArr]
-            rw [List.getElem?_append_left ha]
-        · rfl
-      · rfl
+    have h1 : (h.allocStruct none).1.WF := wf_allocStruct hw (fun a n e => by cases e)
+    exact wf_setStore h1 _ (by simp [H.allocStruct])
+
+theorem wf_applyRes {h1 : H} (hw : h1.WF) (s : Nat) (persist : Bool) (inp : Nat) (r : Res) :
+    (applyRes h1 s persist inp r).1.WF := by
+  unfold applyRes
+  dsimp only
+  have hw2 : (h1.writeBack (h1.field s) r.inplace).WF := wf_writeBack hw _ _
+  have hcur : ValidSlice (h1.writeBack (h1.field s) r.inplace) (h1.field s) :=
+    validSlice_mono (by rw [writeBack_alen]; exact Nat.le_refl _) (validSlice_field hw s)
+  generalize h1.writeBack (h1.field s) r.inplace = h2 at hw2 hcur
+  have h3 : (if r.fresh = true then (h2.allocList r.out).1 else h2).WF ∧
+      ValidSlice (if r.fresh = true then (h2.allocList r.out).1 else h2)
+        (if r.fresh = true then (h2.allocList r.out).2 else h1.field s) := by
+    split
+    · exact wf_allocList hw2 r.out
+    · exact ⟨hw2, hcur⟩
+  generalize (if r.fresh = true then (h2.allocList r.out).1 else h2) = h3' at h3
+  generalize (if r.fresh = true then (h2.allocList r.out).2 else h1.field s) = v at h3
+  have h4 : (if (r.fresh && r.ok && persist) = true then { h3' with structs := h3'.structs.set s v } else h3').WF ∧
+      ValidSlice (if (r.fresh && r.ok && persist) = true then { h3' with structs := h3'.structs.set s v } else h3') v := by
+    split
+    · exact ⟨wf_setField h3.1 s h3.2, h3.2⟩
+    · exact h3
+  generalize (if (r.fresh && r.ok && persist) = true then { h3' with structs := h3'.structs.set s v } else h3') = h4' at h4
+  split
+  · exact wf_allocStruct h4.1 h4.2
+  · exact h4.1
+
+theorem wf_engine {h : H} (hw : h.WF) (c : Cfg) (sh : Shape) (remote persist : Bool) (nw : List Item)
+    (fp fd : Option Filter) (inp : Nat) : (engine c sh h remote persist nw fp fd inp).1.WF := by
+  unfold engine
+  dsimp only
+  split
+  · exact wf_ensureStore hw
+  · exact wf_applyRes (wf_ensureStore hw) _ _ _ _
+
+theorem wf_updateData {h : H} (hw : h.WF) (c : Cfg) (sh : Shape) (remote persist : Bool) (nw : List Item)
+    (fp fd : FArg) : (updateData c sh h remote persist nw fp fd).1.WF := by
+  unfold updateData
+  dsimp only
+  split
+  · exact wf_setStore (wf_allocValue hw nw) _ (by rw [allocValue_snd, allocValue_slen]; exact Nat.lt_succ_self _)
+  · exact wf_engine (wf_allocValue hw nw) _ _ _ _ _ _ _ _
+
+/-! ### a merge-path update that does not persist, or fails, is a no-op on the stored data -/
+
+theorem readStore_same {h h' : H} (e : Ext h h') (hw : h.WF) (hst : h'.store = h.store)
+    (hf : ∀ s, h.store = some s → h'.field s = h.field s) : h'.readStore = h.readStore := by
+  unfold H.readStore
+  rw [hst]
+  cases hs : h.store with
+  | none => rfl
   | some s =>
-    simp only
-    cases hcur : (h.structs[s]?).join with
+    simp only [H.readStruct, hf s hs]
+    exact slice_ext e _ (fun a n hv => hw.1 s a n hv)
+
+theorem ensureStore_read (h : H) : h.ensureStore.1.readStore = h.readStore := by
+  unfold H.ensureStore
+  cases hst : h.store with
+  | some s => rfl
+  | none => simp [H.readStore, hst, H.readStruct, H.field, H.allocStruct, H.slice]
+
+theorem applyRes_noop {h1 : H} (hw : h1.WF) (s : Nat) (persist : Bool) (inp : Nat) (r : Res) (hst : h1.store = some s)
+    (hin : r.inplace = h1.slice (h1.field s)) (hno : persist = false ∨ r.ok = false) :
+    (applyRes h1 s persist inp r).1.readStore = h1.readStore := by
+  have e := applyRes_ext h1 s persist inp r hst hin
+  have hs := hw.2 s hst
+  apply readStore_same e hw
+  · -- the store pointer is not moved by the engine
+    unfold applyRes
+    simp only [hin, writeBack_self]
+    have hk : (r.fresh && r.ok && persist) = false := by rcases hno with h | h <;> simp [h]
+    simp only [hk, Bool.false_eq_true, if_false]
+    split <;> split <;> simp [H.allocStruct, allocList_store]
+  · intro s' hs'
+    rw [hst] at hs'; cases hs'
+    unfold applyRes
+    simp only [hin, writeBack_self]
+    have hk : (r.fresh && r.ok && persist) = false := by rcases hno with h | h <;> simp [h]
+    simp only [hk, Bool.false_eq_true, if_false]
+    have hstr : (if r.fresh = true then (h1.allocList r.out).1 else h1).structs = h1.structs := by
+      split
+      · exact allocList_structs _ _
+      · rfl
+    generalize (if r.fresh = true then (h1.allocList r.out).1 else h1) = h3 at hstr
+    split
+    · rw [field_append]
+      have : s ≠ h3.structs.length := by rw [hstr]; exact Nat.ne_of_lt hs
+      rw [if_neg this]
+      simp [H.field, hstr]
+    · simp [H.field, hstr]
+
+theorem engine_merge_noop (c : Cfg) (sh : Shape) {h : H} (hw : h.WF) (remote persist : Bool) (nw : List Item) (inp : Nat)
+    (hnw : MergeNw sh nw)
+    (hno : persist = false ∨ ∃ i o, (engine c sh h remote persist nw none none inp).2 = .done false i o) :
+    (engine c sh h remote persist nw none none inp).1.readStore = h.readStore := by
+  revert hno
+  unfold engine
+  simp only [updateListF_merge c.u sh remote _ nw hnw]
+  intro hno
+  rw [← ensureStore_read h]
+  apply applyRes_noop (wf_ensureStore hw) _ _ _ _ (ensureStore_store h) rfl
+  rcases hno with hp | ⟨i, o, hd⟩
+  · exact Or.inl hp
+  · right
+    unfold applyRes at hd
+    simp only at hd
+    by_cases hok : (mergeF c.u sh remote (h.ensureStore.1.slice (h.ensureStore.1.field h.ensureStore.2)) nw).2 = true
+    · simp [hok] at hd
+    · simpa using hok
+
+theorem allocValue_read {h : H} (hw : h.WF) (l : List Item) : (h.allocValue l).1.readStore = h.readStore := by
+  apply readStore_same (ext_allocValue h l) hw (allocValue_store h l)
+  intro s hs
+  have := hw.2 s hs
+  unfold H.allocValue
+  rw [field_append]
+  simp [allocList_structs, Nat.ne_of_lt this, H.field]
+
+/-- C11 / C04 (partial): an identifier-based partial update or a non-persisting filter-less update (the merge path),
+    local or remote, in every member of the family: if it does not persist, or fails, the stored data reads
+    exactly as before -/
+theorem updateData_merge_noop (c : Cfg) (sh : Shape) {h : H} (hw : h.WF) (remote persist : Bool) (nw : List Item)
+    (fp fd : FArg) (hp : fp.toOpt = none) (hd : fd.toOpt = none) (hnw : MergeNw sh nw)
+    (hnf : fastPath c (h.allocValue nw).1 remote persist fp fd = false)
+    (hno : persist = false ∨ ∃ i o, (updateData c sh h remote persist nw fp fd).2 = .done false i o) :
+    (updateData c sh h remote persist nw fp fd).1.readStore = h.readStore := by
+  revert hno
+  unfold updateData
+  simp only [hnf, Bool.false_eq_true, if_false, hp, hd]
+  intro hno
+  rw [engine_merge_noop c sh (wf_allocValue hw nw) remote persist nw _ hnw hno]
+  exact allocValue_read hw nw
+
+/-! ### what the stored data reads after an engine call -/
+
+theorem slice_writeBack (h : H) (a n : Nat) (ha : a < h.arrays.length) (ip : List Item)
+    (hl : ip.length = (h.slice (some (a, n))).length) :
+    (h.writeBack (some (a, n)) ip).slice (some (a, n)) = ip := by
+  simp only [H.slice, H.writeBack, List.getElem?_set_self ha, Option.getD_some] at hl ⊢
+  simp only [List.getElem?_eq_getElem ha, Option.getD_some, List.length_take] at hl ⊢
+  rw [List.take_append]
+  have h1 : ip.length ≤ n := by omega
+  rw [List.take_of_length_le h1]
+  have h2 : List.take (n - ip.length) (List.drop n h.arrays[a]) = [] := by
+    by_cases hn : n ≤ h.arrays[a].length
+    · have : n - ip.length = 0 := by omega
+      simp [this]
+    · have : h.arrays[a].length ≤ n := by omega
+      simp [List.drop_of_length_le this]
+  rw [h2, List.append_nil]
+
+theorem slice_allocList_new (h : H) (l : List Item) : (h.allocList l).1.slice (h.allocList l).2 = l := by
+  unfold H.allocList
+  split
+  · rename_i he
+    simp only [H.slice]
+    exact (List.isEmpty_iff.mp he).symm
+  · simp [H.slice]
+
+theorem slice_allocList_old (h : H) (l : List Item) (v : Slice) (hv : ValidSlice h v) :
+    (h.allocList l).1.slice v = h.slice v := slice_ext (ext_allocList h l) v hv
+
+theorem readStore_allocStruct (h : H) (v : Slice) (hs : ∀ s, h.store = some s → s < h.structs.length) :
+    (h.allocStruct v).1.readStore = h.readStore := by
+  unfold H.readStore
+  show (match h.store with | none => [] | some s => (h.allocStruct v).1.readStruct s) = _
+  cases hst : h.store with
+  | none => rfl
+  | some s =>
+    have := hs s hst
+    simp only [H.readStruct, field_append, Nat.ne_of_lt this, if_false]
+    rfl
+
+/-- the stored data after an engine call: the returned list if it is a fresh one and the call succeeded and
+    persists, else the content of the stored array after the in-place writes -/
+theorem applyRes_readStore {h1 : H} (hw : h1.WF) (s : Nat) (hst : h1.store = some s) (persist : Bool) (inp : Nat)
+    (r : Res) (hlen : r.inplace.length = (h1.slice (h1.field s)).length) :
+    (applyRes h1 s persist inp r).1.readStore = if r.fresh && r.ok && persist then r.out else r.inplace := by
+  have hs := hw.2 s hst
+  -- after the write-back the stored struct reads `r.inplace`
+  have hw2 : (h1.writeBack (h1.field s) r.inplace).WF := wf_writeBack hw _ _
+  have h2read : (h1.writeBack (h1.field s) r.inplace).slice (h1.field s) = r.inplace := by
+    cases hf : h1.field s with
     | none =>
-      simp only [H.slice]
-      cases hu : updateList sh remote [] nw none none with
-      | panic s => rfl
-      | ok r =>
-        simp only
-        split
-        · split
-          · split
-            · rfl
-            · simp only [H.newArr]
-              rw [List.getElem?_append_left ha]
-          · rfl
-        · rfl
+      rw [hf] at hlen
+      simp only [H.slice, List.length_nil] at hlen
+      simp [H.writeBack, H.slice, List.length_eq_zero_iff.mp hlen]
     | some an =>
-      obtain ⟨a0, n⟩ := an
-      have ha0 := hwf s a0 n hst hcur
-      simp only [H.slice]
-      cases hu : updateList sh remote ((h.arrays[a0]?.getD []).take n) nw none none with
-      | panic s => rfl
-      | ok r =>
-        have hin := updateList_merge_inplace sh remote _ nw r hnw hu
-        simp only [hin, set_take_drop h.arrays a0 n ha0]
-        split
-        · split
-          · split
-            · rfl
-            · simp only [H.newArr]
-              rw [List.getElem?_append_left ha]
-          · rfl
-        · rfl
+      obtain ⟨a, n⟩ := an
+      rw [hf] at hlen
+      exact slice_writeBack h1 a n (hw.1 s a n hf) _ hlen
+  have h2f : ∀ s', (h1.writeBack (h1.field s) r.inplace).field s' = h1.field s' := writeBack_field h1 _ _
+  have h2st : (h1.writeBack (h1.field s) r.inplace).store = some s := by
+    cases h1.field s with
+    | none => exact hst
+    | some an => exact hst
+  have h2sl : (h1.writeBack (h1.field s) r.inplace).structs.length = h1.structs.length := by
+    cases h1.field s with
+    | none => rfl
+    | some an => rfl
+  unfold applyRes
+  dsimp only
+  generalize h1.writeBack (h1.field s) r.inplace = h2 at hw2 h2read h2f h2st h2sl
+  have hcur : ValidSlice h2 (h1.field s) := by rw [← h2f s]; exact validSlice_field hw2 s
+  by_cases hfr : r.fresh = true
+  · simp only [hfr, if_true, Bool.true_and]
+    have hw3 := wf_allocList hw2 r.out
+    have h3st : (h2.allocList r.out).1.store = some s := by rw [allocList_store]; exact h2st
+    have h3sl : (h2.allocList r.out).1.structs.length = h1.structs.length := by rw [allocList_structs]; exact h2sl
+    have h3new := slice_allocList_new h2 r.out
+    have h3old : (h2.allocList r.out).1.slice (h1.field s) = r.inplace := by
+      rw [slice_allocList_old h2 r.out _ hcur]; exact h2read
+    have h3f : (h2.allocList r.out).1.field s = h1.field s := by
+      simp only [H.field, allocList_structs]; exact h2f s
+    generalize h2.allocList r.out = q at hw3 h3st h3sl h3new h3old h3f
+    obtain ⟨h3, v⟩ := q
+    simp only at hw3 h3st h3sl h3new h3old h3f ⊢
+    by_cases hk : (r.ok && persist) = true
+    · simp only [hk, if_true]
+      have h4read : ({ h3 with structs := h3.structs.set s v } : H).readStore = r.out := by
+        simp only [H.readStore, h3st, H.readStruct, H.field]
+        rw [List.getElem?_set_self (by omega)]
+        exact h3new
+      have h4s : ∀ s', ({ h3 with structs := h3.structs.set s v } : H).store = some s' →
+          s' < ({ h3 with structs := h3.structs.set s v } : H).structs.length := by
+        intro s' e; simp only at e; rw [h3st] at e; cases e; simp; omega
+      split
+      · rw [readStore_allocStruct _ _ h4s]; exact h4read
+      · exact h4read
+    · simp only [hk, Bool.false_eq_true, if_false]
+      have h3read : h3.readStore = r.inplace := by
+        simp only [H.readStore, h3st, H.readStruct, h3f]; exact h3old
+      split
+      · rw [readStore_allocStruct _ _ hw3.1.2]; exact h3read
+      · exact h3read
+  · have hfr' : r.fresh = false := by simpa using hfr
+    simp only [hfr', Bool.false_eq_true, if_false, Bool.false_and]
+    have h2r : h2.readStore = r.inplace := by
+      simp only [H.readStore, h2st, H.readStruct, h2f s]; exact h2read
+    split
+    · rw [readStore_allocStruct _ _ hw2.2]; exact h2r
+    · exact h2r
+
+theorem ensureStore_slice (h : H) : h.ensureStore.1.slice (h.ensureStore.1.field h.ensureStore.2) = h.readStore := by
+  unfold H.ensureStore
+  cases hst : h.store with
+  | some s => simp [H.readStore, hst, H.readStruct]
+  | none => simp [H.readStore, hst, H.field, H.allocStruct, H.slice]
+
+/-- the engine path in closed form on the stored data -/
+theorem engine_readStore (c : Cfg) (sh : Shape) {h : H} (hw : h.WF) (remote persist : Bool) (nw : List Item)
+    (fp fd : Option Filter) (inp : Nat) (r : Res) (hu : updateListF c.u sh remote h.readStore nw fp fd = .ok r)
+    (hlen : r.inplace.length = h.readStore.length) :
+    (engine c sh h remote persist nw fp fd inp).1.readStore = if r.fresh && r.ok && persist then r.out else r.inplace := by
+  unfold engine
+  dsimp only
+  rw [ensureStore_slice, hu]
+  exact applyRes_readStore (wf_ensureStore hw) _ (ensureStore_store h) persist inp r (by rw [ensureStore_slice]; exact hlen)
+
+theorem engine_panic_readStore (c : Cfg) (sh : Shape) (h : H) (remote persist : Bool) (nw : List Item)
+    (fp fd : Option Filter) (inp : Nat) (s : String) (hu : updateListF c.u sh remote h.readStore nw fp fd = .panic s) :
+    (engine c sh h remote persist nw fp fd inp).1.readStore = h.readStore := by
+  unfold engine
+  dsimp only
+  rw [ensureStore_slice, hu]
+  exact ensureStore_read h
+
+/-- C04, clause 1a on the store: a remote write that goes through the engine (any shape, any member of the family)
+    keeps every element whose flag is not true, identical, in the stored data -/
+theorem remote_engine_write_protects (c : Cfg) (sh : Shape) {h : H} (hw : h.WF) (persist : Bool) (nw : List Item)
+    (fp fd : FArg) (hnf : fastPath c (h.allocValue nw).1 true persist fp fd = false) :
+    ∀ e ∈ h.readStore, writeAllowed sh e = false → e ∈ (updateData c sh h true persist nw fp fd).1.readStore := by
+  intro e he hwe
+  unfold updateData
+  simp only [hnf, Bool.false_eq_true, if_false]
+  have hw0 := wf_allocValue hw nw
+  have hr0 := allocValue_read hw nw
+  generalize (h.allocValue nw).1 = h0 at hw0 hr0
+  generalize (h.allocValue nw).2 = inp
+  rw [← hr0] at he
+  cases hu : updateListF c.u sh true h0.readStore nw fp.toOpt fd.toOpt with
+  | panic s => rw [engine_panic_readStore c sh h0 true persist nw _ _ inp s hu]; exact he
+  | ok r =>
+    have hp := updateListF_remote_protects c.u sh _ nw _ _ r hu
+    rw [engine_readStore c sh hw0 true persist nw _ _ inp r hu (Prot.length sh hp.1)]
+    split
+    · exact hp.2 e he hwe
+    · exact Prot.mem sh hp.1 e he hwe
+
+/-- in the member with the fast path closed for remote writes, no remote write to an existing store takes it -/
+theorem fastPath_repaired (c : Cfg) (h : H) (persist : Bool) (fp fd : FArg) (hc : c.fastpathRemote = false)
+    (hs : h.store.isSome = true) : fastPath c h true persist fp fd = false := by
+  simp [fastPath, hc, hs]
+
+/-! ### histories -/
+
+inductive Op
+  | copy
+  | upd (remote persist : Bool) (nw : List Item) (fp fd : FArg)
+deriving Repr
+
+def stepOp (c : Cfg) (sh : Shape) (h : H) : Op → H
+  | .copy => (dataCopy h).1
+  | .upd remote persist nw fp fd => (updateData c sh h remote persist nw fp fd).1
+
+def run (c : Cfg) (sh : Shape) (h : H) (ops : List Op) : H := ops.foldl (stepOp c sh) h
+
+/-- ops that are safe for retained values whatever the state: a `DataCopy`; an update whose filters carry no
+    selector / elements and whose items carry identifiers (replace or merge path); a filter-less persisting update
+    that is certain to take the replace path -/
+def Op.Safe (c : Cfg) (sh : Shape) : Op → Prop
+  | .copy => True
+  | .upd remote persist nw fp fd =>
+    fp.toOpt = none ∧ fd.toOpt = none ∧
+      (MergeNw sh nw ∨ (fp.isNil = true ∧ fd.isNil = true ∧ persist = true ∧ (remote = false ∨ c.fastpathRemote = true)))
+
+theorem stepOp_safe_ext (c : Cfg) (sh : Shape) (h : H) (op : Op) (hs : op.Safe c sh) : Ext h (stepOp c sh h op) := by
+  cases op with
+  | copy => exact ext_dataCopy h
+  | upd remote persist nw fp fd =>
+    obtain ⟨hp, hd, hm⟩ := hs
+    apply updateData_safe_ext
+    rcases hm with hm | ⟨h1, h2, h3, h4⟩
+    · exact Or.inr ⟨hp, hd, hm⟩
+    · left
+      rcases h4 with h4 | h4 <;> simp [fastPath, h1, h2, h3, h4]
+
+theorem run_safe_ext (c : Cfg) (sh : Shape) : ∀ (ops : List Op) (h : H), (∀ op ∈ ops, op.Safe c sh) → Ext h (run c sh h ops)
+  | [], h, _ => Ext.refl h
+  | op :: ops, h, hs => by
+    have h1 := stepOp_safe_ext c sh h op (hs op List.mem_cons_self)
+    exact h1.trans (run_safe_ext c sh ops _ (fun o ho => hs o (List.mem_cons_of_mem _ ho)))
+
+theorem wf_run (c : Cfg) (sh : Shape) : ∀ (ops : List Op) (h : H), h.WF → (run c sh h ops).WF
+  | [], _, hw => hw
+  | op :: ops, h, hw => by
+    apply wf_run c sh ops
+    cases op with
+    | copy => exact wf_dataCopy hw
+    | upd remote persist nw fp fd => exact wf_updateData hw c sh remote persist nw fp fd
+
+/-- a `DataCopy` snapshot is a brand-new struct that reads the stored data and is not the stored struct -/
+theorem dataCopy_snapshot {h : H} (hw : h.WF) (s : Nat) (hst : h.store = some s) :
+    (dataCopy h).2 = some h.structs.length ∧ (dataCopy h).1.readStruct h.structs.length = h.readStore ∧
+      (dataCopy h).1.store ≠ some h.structs.length ∧ h.structs.length < (dataCopy h).1.structs.length := by
+  have hs := hw.2 s hst
+  unfold dataCopy
+  simp only [hst]
+  refine ⟨rfl, ?_, ?_, by simp [H.allocStruct]⟩
+  · simp only [H.readStruct, field_append, if_true, H.readStore, hst]
+    rfl
+  · simp only [H.allocStruct, hst, ne_eq, Option.some.injEq]
+    omega
 
 end Spine.Heap
